@@ -123,3 +123,16 @@ Theorem C17_rest_tokens : forall lx file pre rest tp eofp lp toks lines t,
       Some {| tp_line := Z.of_nat (count_nl pre + line_of rest off); tp_col := col_of rest off; tp_file := file |} /\
     nth_error lines' (count_nl pre + line_of rest off) = Some (line_text rest (line_of rest off)).
 Proof. exact rest_token_location. Qed.
+
+(** The same two statements WITH included files (no included path is the main file's name): tokens
+    of the main file move, tokens of included files stay; an error inside an included file is
+    reported at the same place with or without the lines in front of the main file. *)
+From A816 Require Import Proofs.IncludeLoc.
+Theorem C17_leading_lines_includes : forall t fs c fname pad cp eofp lp,
+  lexicon_ok (lv_lex t) = true -> ends_nl pad ->
+  scan (lv_lex t) fname pad = ScanOk (cp ++ [eofp]) lp ->
+  Forall (fun x => t_type x = T_COMMENT) cp ->
+  Forall (fun pt => str_eqb (fst pt) fname = false) (sf_text fs) ->
+  forall src,
+  result_shifted_inc fname (count_nl pad) (assemble_source t fs c fname src) (assemble_source t fs c fname (pad ++ src)).
+Proof. exact leading_lines_shift_inc. Qed.
